@@ -19,7 +19,7 @@ if ROOT not in sys.path:
 
 from pysymex import structstr as SS  # noqa: E402
 from pysymex.guards import GuardMgr, Inconclusive  # noqa: E402
-from pysymex.interp import Frame, Interp, Obj  # noqa: E402
+from pysymex.interp import Frame, Interp, Obj, is_special  # noqa: E402
 from pysymex.values import (  # noqa: E402
     ABSENT,
     UNBOUND,
